@@ -79,7 +79,8 @@ def run_schedules(ck, exe, configs, validate=True):
     for i, (T, pad, inp, seed, ycs, pol) in enumerate(configs):
         lp = os.path.join(ck.scratch, "sched_%d.log" % i)
         logs[i] = lp
-        lines.append("s%d @WV_SCHED_SEED=%d,WV_YIELD_IN_CS=%d,WV_SCHED_POLICY=%d,WV_SCHED_LOG=%s pipe %d %d %s" % (i, seed, ycs, pol, lp, T, 1 if pad else 0, wv.hexs(inp)))
+        sp = ",WV_SPURIOUS=%d" % (pol // 10) if pol >= 10 else ""
+        lines.append("s%d @WV_SCHED_SEED=%d,WV_YIELD_IN_CS=%d,WV_SCHED_POLICY=%d%s,WV_SCHED_LOG=%s pipe %d %d %s" % (i, seed, ycs, pol % 10, sp, lp, T, 1 if pad else 0, wv.hexs(inp)))
     impl = wv.run_lines([exe], lines, env=env)
     res = []
     mlines = []
@@ -89,7 +90,7 @@ def run_schedules(ck, exe, configs, validate=True):
         sched = ",".join(str(t) for (t, _, _) in steps) or "-"
         res.append({"i": i, "T": T, "ispadding": pad, "n": len(inp), "seed": seed, "yield_in_cs": ycs, "policy": pol,
                     "impl": impl.get("s%d" % i, "(no output)"), "status": status, "steps": steps, "sched": sched, "input": inp})
-        if validate and ycs == 0:
+        if validate and ycs == 0 and pol < 10:
             mlines.append("m%d conc %d %d %s %s" % (i, T, 1 if pad else 0, wv.hexs(inp), sched))
         try:
             os.remove(logs[i])
